@@ -30,6 +30,8 @@ def jsonable(x):
         return {str(k): jsonable(v) for k, v in x.items()}
     if isinstance(x, (list, tuple)):
         return [jsonable(v) for v in x]
+    if isinstance(x, str) and x.startswith('!ProcessSerializer['):
+        return '!ProcessSerializer'        # (the parameters differ between the modes by the _parallel flag itself)
     if isinstance(x, (int, float, str, bool)) or x is None:
         return x
     return repr(x)
